@@ -115,7 +115,8 @@ func (e *c15Env) state() (string, error) {
 	}
 	e.lastSnap = snap
 	var b strings.Builder
-	b.WriteString(snap.Digest(true))
+	// the orphan buffer is not part of "the ledger": a vertex whose parent is unknown is reported as such AND parked (C13)
+	b.WriteString(snap.Digest(false))
 	for _, k := range e.keys {
 		var hs []string
 		for h := range e.s.awaitingOf(k.Addr) {
